@@ -136,8 +136,20 @@ def _kf_drop_index(family, case, disc):
 @known.finding("C03/drop_invalid_rows-keeps-null-duplicates")
 def _kf_drop_nulldup(family, case, disc):
     d = disc.detail if isinstance(disc.detail, dict) else {}
-    return (":drop:" in disc.kind and disc.kind.startswith("returned-object-violates") and d.get("null_dup")
-            and set(disc.kind.split(":")[-1].split("+")) <= {"SERIES_CONTAINS_DUPLICATES", "DUPLICATES"})
+    if not (":drop:" in disc.kind and disc.kind.startswith("returned-object-violates") and d.get("null_dup")):
+        return False
+    rest = set(disc.kind.split(":")[-1].split("+")) - {"SERIES_CONTAINS_DUPLICATES", "DUPLICATES"}
+    if not rest:
+        return True
+    # surviving rows whose index label violates the Index component may ride along (the other recorded drop finding)
+    ixs = case["spec"].get("index")
+    ix_kinds = [c["kind"] for l in ((ixs["multi"] if "multi" in ixs else [ixs]) if ixs else []) for c in l.get("checks", [])]
+    if rest != {"DATAFRAME_CHECK"} or not ix_kinds or "Index" not in d.get("components", []) + ["Index" if "MultiIndex" in d.get("components", []) else ""]:
+        return False
+    if "errors" in d:
+        return all("<index>" in str(e[0]) for e in d["errors"] if e[0][0] == "DATAFRAME_CHECK")
+    dup_names = {"field_uniqueness", "multiple_fields_uniqueness"}
+    return all(c in dup_names or any(c.startswith(k + "(") for k in ix_kinds) for c in d.get("checks", []))
 
 
 @known.finding("C03/drop_invalid_rows-aggregate-check-broken-by-dropping")
